@@ -34,6 +34,7 @@ fn main() {
     (args[3].clone(), None)
   };
   match id {
+    "C02" => drive::c02::check(Ctx::new(id, &tier, "exploration"), replay),
     "C09" => drive::c09::check(Ctx::new(id, &tier, "model_checking"), replay),
     "C16" => drive::c16::check(Ctx::new(id, &tier, "model_checking"), replay),
     "C17" => drive::c17::check(Ctx::new(id, &tier, "model_checking"), replay),
